@@ -71,16 +71,31 @@ def _validate_group(key, items, res, keep_dir, timeout):
     eval_error = r.error and ("The error occurred when TLC was evaluating" in r.out or "Attempted to" in r.out)
     if r.error and "REJECTED_AT_LINE" not in r.out and not r.violation and not eval_error:
         raise vlib.InfraError("model failure in RunTrace (rc=%s)\n%s" % (r.rc, r.out[-3000:]))
-    if len(items) > 1:
-        # find the offending run(s): validate each run alone
-        shutil.rmtree(work, ignore_errors=True)
-        for it in items:
-            _validate_group(key, [it], res, keep_dir, timeout)
-        return
-    label, hdr, evs = items[0]
     m = re.search(r'REJECTED_AT_LINE",\s*(\d+)', r.out)
     inv = r.violated_name()
     line = int(m.group(1)) if m else None
+    if len(items) > 1:
+        # TLC names the first line that could not be matched: that identifies the offending run; the runs before it
+        # were accepted, the runs after it are validated in a further TLC run
+        shutil.rmtree(work, ignore_errors=True)
+        pos = None
+        if line is not None and not r.violation:
+            acc = 0
+            for i, (_l, _h, evs_i) in enumerate(items):
+                acc += 1 + len(evs_i)
+                if line <= acc:
+                    pos = i
+                    break
+        if pos is None or len(res.rejected) > 12:
+            for it in items[:40]:
+                _validate_group(key, [it], res, keep_dir, timeout)
+            return
+        res.validated += pos
+        _validate_group(key, [items[pos]], res, keep_dir, timeout)
+        if items[pos + 1:]:
+            _validate_group(key, items[pos + 1:], res, keep_dir, timeout)
+        return
+    label, hdr, evs = items[0]
     if eval_error and not m:
         # an event whose fields cannot even be applied to the state (e.g. a worker that does not exist): the
         # trace is not a behaviour of the spec; the position is the l of the last printed state
